@@ -23,26 +23,34 @@ pub fn generate_fresh(seed: u64, tier: &str, out: &mut dyn std::io::Write) {
                 "v" => MemReader::for_virtual_mem(t.pid),
                 _ => match MemReader::for_file(t.pid) { Ok(m) => m, Err(_) => continue },
             };
-            // reads of different lengths and offsets around the counter, all within one 8 KiB window
-            let mut vals: Vec<u64> = Vec::new();
+            // reads of different lengths and offsets around the counter, all within one 8 KiB window; each read is
+            // bracketed by two independent observations of the counter (it only grows): whatever the scheduling, a
+            // faithful reader returns a value between them
+            let mut triples: Vec<String> = Vec::new();
             let mut ok = true;
-            for k in 0..6 {
+            let mut last = t.read_u64(caddr);
+            for _k in 0..6 {
+                // give the busy thread a chance to move on since the previous read (bounded; no progress is no error)
+                let deadline = std::time::Instant::now() + std::time::Duration::from_millis(200);
+                while t.read_u64(caddr) == last && std::time::Instant::now() < deadline {
+                    std::thread::sleep(std::time::Duration::from_micros(200));
+                }
                 let before = r.below(3) * 8;
                 let len = 8 + before + r.below(4) * 8;
-                match mr.read_to_vec((caddr - before) as usize, NonZeroUsize::new(len as usize).unwrap()) {
+                let lo = t.read_u64(caddr);
+                let res = mr.read_to_vec((caddr - before) as usize, NonZeroUsize::new(len as usize).unwrap());
+                let hi = t.read_u64(caddr);
+                match res {
                     Ok(v) if v.len() as u64 == len => {
                         let off = before as usize;
-                        vals.push(u64::from_le_bytes(v[off..off + 8].try_into().unwrap()));
+                        let val = u64::from_le_bytes(v[off..off + 8].try_into().unwrap());
+                        triples.push(format!("{}:{}:{}", lo, val, hi));
+                        last = hi;
                     }
                     _ => { ok = false; break; }
                 }
-                if k < 5 {
-                    std::thread::sleep(std::time::Duration::from_millis(2));
-                }
             }
-            let now = t.read_u64(caddr);
-            let vs: Vec<String> = vals.iter().map(|v| v.to_string()).collect();
-            writeln!(out, "C17 f{}-{}-{} kind=fresh strat={} result={} vals={} after={}", seed, i, strat, strat, if ok { "ok" } else { "err" }, vs.join(","), now).unwrap();
+            writeln!(out, "C17 f{}-{}-{} kind=fresh strat={} result={} obs={}", seed, i, strat, strat, if ok { "ok" } else { "err" }, triples.join(",")).unwrap();
         }
     }
 }
